@@ -123,12 +123,26 @@ class Online:
         self.bad_rate, self.empty_rate, self.blocks_rate, self.observe_mid = bad_rate, empty_rate, blocks_rate, observe_mid
         self.used = {}  # d -> set of windows that hold a final or open file
 
-    def region(self, d):
+    def zones(self, d):
+        """index intervals directory d may record (the same file period is never recorded in two directories).
+        With two directories the periods interleave: one directory owns the first and the last third, the other the middle."""
         cc = self.cc
         if cc.nd == 1:
-            return cc.bound[0], cc.bound[-1] - 1
-        h = max(2, cc.nw // 2)
-        return (cc.bound[0], cc.bound[h] - 1) if d == 1 else (cc.bound[h], cc.bound[-1] - 1)
+            return [(cc.bound[0], cc.bound[-1] - 1)]
+        if not hasattr(self, "_outer"):
+            self._outer = self.rng.choice([1, 2])
+        h1 = max(1, cc.nw // 3)
+        h2 = max(h1 + 1, (2 * cc.nw) // 3)
+        z = [(cc.bound[0], cc.bound[h1] - 1), (cc.bound[h1], cc.bound[h2] - 1), (cc.bound[h2], cc.bound[-1] - 1)]
+        return [z[0], z[2]] if d == self._outer else [z[1]]
+
+    def region(self, d, at=None):
+        zs = self.zones(d)
+        if at is not None:
+            for lo, hi in zs:
+                if lo <= at <= hi:
+                    return lo, hi
+        return zs[0]
 
     def pick_len(self, a, hi):
         """a write length: tiny, up to / across the next file boundary, multi-file"""
@@ -166,7 +180,7 @@ class Online:
 
     def session(self, d, start, pid=1, maxcalls=None):
         rng, ch, cc = self.rng, self.ch, self.cc
-        lo, hi = self.region(d)
+        lo, hi = self.region(d, start)
         if not ch.open(d, start, pid):
             return "refused"
         pos = start  # next index the writer would accept
@@ -225,8 +239,8 @@ class Online:
                 ch.observe([d], rng, npairs=10, nvec=3)
             if js and rng.random() < 0.7:
                 # a new session with the original parameters must be accepted by the regenerated channel
-                lo, hi = self.region(d)
                 start = cc.bound[max(fin)]  # first sample after the last finalized window
+                lo, hi = self.region(d, start)
                 if start <= hi:
                     self.session(d, start, 1, maxcalls=2)
                     ch.observe([d], rng, npairs=6, nvec=1)
@@ -237,8 +251,8 @@ class Online:
         ends = {}
         for si in range(nsessions):
             d = rng.randint(1, cc.nd)
-            lo, hi = self.region(d)
-            if si == 0 or d not in ends:
+            lo, hi = rng.choice(self.zones(d))
+            if si == 0 or d not in ends or not (lo <= ends[d] <= hi):
                 start = rng.choice([lo, lo, lo + rng.randint(0, max(0, min(hi - lo, cc.bound[1] - cc.bound[0] + 2)))])
             else:
                 e = ends[d]
